@@ -999,6 +999,7 @@ def _find_decl_prefix(term, prefix, out, seen=None):
 
 def resampled_case(apply_filters, seeded):
     class RT:
+        directed = directed_catfc('resampled_magnitude_test')
         qualname = RMT
         case = 'list-backed catalog forecast, apply_filters=%s, %s' % (apply_filters, 'seed given' if seeded else 'seed=None')
         properties = ('C10',)
